@@ -103,7 +103,9 @@ def main():
             ran["demo_without_change_passes"] = rc == 0
             rc, o = sh(["git", "apply", patch], cwd=scratch)
             ran["patch_applied_for_demo"] = rc == 0
+            os.rename(os.path.join(scratch, "OUT"), os.path.join(scratch, "_OUT"))  # demo files of several packages in one directory are not a package
             rc, o = sh(["go", "build", "./..."], cwd=scratch)
+            os.rename(os.path.join(scratch, "_OUT"), os.path.join(scratch, "OUT"))
             ran["builds_with_change"] = rc == 0
             rc, o = sh(["bash", "-c", demo_cmd], cwd=scratch, env=denv, timeout=1200)
             ran["demo_with_change_fails"] = rc != 0
